@@ -50,6 +50,8 @@ def run_levels_parallel(levels: list[dict], nproc: int | None = None) -> dict:
             else:
                 out['vacuous'].append(f"{lv['label']}: reachability twin: {tw[1]}")
         reach = st.counters.get('reached')
+        if lv.get('novacuity'):
+            continue
         if st.complete and reach is not None and reach == 0:
             out['vacuous'].append(f"{lv['label']}: no path reached the assertion")
         if st.complete and st.paths == 0:
